@@ -554,6 +554,7 @@ def oracle(run, deep):
     run.note("oracle: %d values round-tripped in three quote styles" % nchecked)
     variable_names(run, rng)
     word_identity(run, rng)
+    combined_literals(run, rng, deep)
     overlapping_literals(run)
     eval_route_oracle(run, deep)
     multi_engine_oracle(run, deep)
@@ -613,6 +614,93 @@ def word_identity(run, rng):
                 run.fail("violation", "a word does not denote its own text",
                          {"input": lc.compress(w), "input_repr": lc.printable(w), "observed": [str(x)[:80] for x in o],
                           "required": "KeywordConstant with exactly the code points written", "theorems": ["C16_keywords"]})
+
+
+# ---------------------------------------------------------------- several literals in one expression
+COMBO_POOL = ["1", "1.0", "01", "1.00", "0", "0.0", "00", "0.00", "3", "3.0", "7", "7.0", "2", "2.0", "100000000000000000",
+              "100000000000000000.0", "9007199254740993", "9007199254740993.0", "9007199254740992.0", "'1'", '"1"', "`1`", "'a'", '"a"',
+              "`a`", "'A'", "''", "' '", "true", "false", "null", "True", "one", "'true'", "'null'", "0.5", "00.50", "'1.0'", "10", "10.0",
+              "1" + "0" * 30, "1" + "0" * 30 + ".0"]
+
+
+def constant_leaves(e, out):
+    """the Constant nodes of a tree, left to right, as (token type, canonical value)"""
+    if isinstance(e, expressions.Constant):
+        v = e.value
+        out.append((kind_of(e), ("float", v.hex()) if isinstance(v, float) else lc.canon_value(v, "")))
+    elif isinstance(e, expressions.Wrap):
+        constant_leaves(e.expr, out)
+    elif isinstance(e, expressions.MappingRuleExpression):
+        constant_leaves(e.source, out)
+        constant_leaves(e.destination, out)
+    elif isinstance(e, expressions.Function):
+        for a in e.args:
+            if isinstance(a, expressions.Expression):
+                constant_leaves(a, out)
+    return out
+
+
+def typed(v):
+    """a Python value with exact types, recursively"""
+    if isinstance(v, (list, tuple)):
+        return ["seq"] + [typed(x) for x in v]
+    if isinstance(v, dict):
+        return ["dict"] + sorted([typed(k), typed(x)] for k, x in v.items())
+    if isinstance(v, float):
+        return ["float", v.hex()]
+    return [type(v).__name__, v]
+
+
+def combined_literals(run, rng, deep):
+    """Literals checked IN COMBINATION: in a list, as dict keys/values, as function arguments, as both operands of an
+    operator, nested - every position must hold the constant ITS OWN spelling denotes (exact type), in the tree and in
+    the evaluated result.  Pairs that are == but differ in type or spelling (1 / 1.0 / 01, 0 / 0.0, big ints and their
+    floats, '1' / 1, true / 'true' / True) are the point."""
+    alone = {}
+    for t in COMBO_POOL:
+        st = lc.engine()(t)
+        alone[t] = (constant_leaves(st.expression, []), st.evaluate(context=ctx()))
+    forms = [("[%s, %s]", True), ("[%s, %s, %s]", True), ("list(%s, %s)", True), ("[[%s], [%s]]", True), ("f(%s, %s)", False),
+             ("%s = %s", False), ("%s + %s", False), ("{ka => %s, kb => %s}", False), ("{%s => %s}", False), ("[%s, [%s, %s]]", True),
+             ("x(%s).y(%s, k => %s)", False), ("(%s) in [%s]", False), ("[%s, -%s]", False)]
+    pairs = [(a, b) for a in COMBO_POOL for b in COMBO_POOL]
+    if run.quick:
+        near = [(a, b) for a, b in pairs if a != b and alone[a][1] == alone[b][1] and not isinstance(alone[a][1], str)]
+        pairs = near + rng.sample(pairs, 350)
+    reported = False
+    for a, b in pairs:
+        for form, evaluable in (forms if not run.quick else [forms[0], forms[1], rng.choice(forms[2:]), rng.choice(forms[2:])]):
+            n = form.count("%s")
+            lits = [a, b, a][:n] if rng.random() < 0.5 or n < 3 else [a, b, b]
+            text = form % tuple(lits)
+            want_leaves = [x for l in lits for x in alone[l][0]]
+            try:
+                st = lc.engine()(text)
+                got_leaves = constant_leaves(st.expression, [])
+                got_leaves = [g for g in got_leaves if not (g[0] == "KEYWORD_STRING" and g[1] in (("text", "k"), ("text", "ka"), ("text", "kb")))]
+            except Exception as e:
+                got_leaves = ["raised " + lc.qualname(e)]
+            ok = got_leaves == want_leaves
+            got_val = want_val = None
+            if ok and evaluable:
+                try:
+                    got_val = typed(st.evaluate(context=ctx()))
+                except Exception as e:
+                    got_val = ["raised", lc.qualname(e)]
+                vals = [alone[l][1] for l in lits]
+                want_val = typed({"[%s, %s]": vals, "[%s, %s, %s]": vals, "list(%s, %s)": vals, "[[%s], [%s]]": [[vals[0]], [vals[-1]]] if n == 2 else None,
+                                  "[%s, [%s, %s]]": [vals[0], vals[1:]]}[form])
+                ok = got_val == want_val
+            run.case(("combo", text), nontrivial=True)
+            run.count("oracle:combined:" + ("ok" if ok else "fail"))
+            if not ok and not reported:
+                reported = True
+                run.fail("violation", "a literal inside an expression holding several literals does not denote the value (and type) "
+                                      "its own spelling denotes",
+                         {"input": lc.compress(text), "input_repr": lc.printable(text),
+                          "observed": {"constants": [str(x) for x in got_leaves], "evaluated": str(got_val)},
+                          "required": {"constants": [str(x) for x in want_leaves], "evaluated": str(want_val)},
+                          "theorems": ["C16_integer", "C16_number_shape", "C16_decimal_value", "C16_keywords", "C16_sq_roundtrip"]})
 
 
 # ---------------------------------------------------------------- the yaql.eval() route over histories
